@@ -98,6 +98,9 @@ func (g *egSpec) renderPart(p *egPart) string {
 		a := p.Alts[0]
 		if len(a.Parts) == 1 && a.Parts[0].simple() && a.Node == "" && a.Parts[0].Name == "" {
 			s = g.renderPart(a.Parts[0]) + "?"
+		} else if p.Alias != "" {
+			// an alias on the parenthesised group (C16): the alias binds tighter than `?`
+			return "(" + g.renderAlt(a) + ")[" + p.Alias + "]?"
 		} else {
 			s = "(" + g.renderAlt(a) + ")?"
 		}
